@@ -203,9 +203,27 @@ def run(ctx):
         ev[0] in g.reach([b]) for b, k in g.succ[tests[0]] if k == "false")
     ctx.check("R-EAGER-LAZY", "content_from_reader evaluates reader() now iff buffer_now", cfr, ok,
               "the reader is evaluated eagerly without buffer_now, or not at all with it", construct=f"{CONTENT}:content_from_reader::buffer-now")
+    # what the buffered content hands out: the reader's own chunks, materialised -- a sequence built
+    # element-for-element from reader() (list / tuple / comprehension yielding the element itself).
+    # Joining or re-slicing them changes the chunking the callers promised (non-empty, <= chunk_size).
     evs = [c for c in walk_shallow(cfr, include_self=False) if isinstance(c, ast.Call) and dotted(c.func) == "reader"]
-    ok = len(evs) == 1 and isinstance(evs[0]._parent, ast.Call) and dotted(evs[0]._parent.func) in ("list", "tuple")
-    ctx.check("R-EAGER-LAZY", "buffered content is materialised (list), not a one-shot iterator", cfr, ok, "buffer_now keeps a one-shot iterator: the content could be read only once", construct=f"{CONTENT}:content_from_reader::materialise")
+    how = "reader() is not evaluated exactly once"
+    ok = False
+    if len(evs) == 1:
+        par = evs[0]._parent
+        if isinstance(par, ast.Call) and dotted(par.func) in ("list", "tuple") and par.args == [evs[0]]:
+            ok = True
+        elif isinstance(par, ast.comprehension) and par.iter is evs[0] and isinstance(par._parent, ast.ListComp) and not par.ifs \
+                and dotted(par._parent.elt) == dotted(par.target) and len(par._parent.generators) == 1:
+            ok = True
+        elif isinstance(par, ast.Call) and ((isinstance(par.func, ast.Attribute) and par.func.attr == "join") or "join" in (dotted(par.func) or "")):
+            how = ("the chunks read are joined into one: a buffered content yields a single chunk larger than chunk_size, and an empty chunk for an empty source "
+                   "(content_from_file / content_from_stream promise non-empty chunks no larger than chunk_size)")
+        elif isinstance(par, (ast.Assign, ast.Return)) or (isinstance(par, ast.Call) and dotted(par.func) in ("iter", "map", "filter")):
+            how = "buffer_now keeps a one-shot iterator: the content could be read only once"
+        else:
+            how = f"the chunks handed out are `{norm(par)[:60]}`, not the reader's chunks one for one"
+    ctx.check("R-EAGER-LAZY", "buffered content hands out the reader's own chunks, materialised one for one", cfr, ok, how, construct=f"{CONTENT}:content_from_reader::materialise")
     rets = [r for r in walk_shallow(cfr, include_self=False) if isinstance(r, ast.Return)]
     ok = len(rets) == 1 and norm(rets[0].value) == "Content(content_type, reader)"
     ctx.check("R-EAGER-LAZY", "content_from_reader returns Content(content_type, reader)", cfr, ok, "content_from_reader result changed", construct=f"{CONTENT}:content_from_reader::returns")
